@@ -21,6 +21,9 @@ PlansChain == {<<OpBuild(1), OpEncode(1, "DER"), OpEncode(1, s1), OpDecode(2, s1
 Plans == CASE PlanSet = "enc" -> PlansEnc [] PlanSet = "rt" -> PlansRT [] PlanSet = "chain" -> PlansChain [] OTHER -> {}
 \* C05: every 2-chunk split of the reference encoding, for the restartable binary decoders
 Splits(syn, b) == {<<OpStartDecode(1, syn, b), OpDecodeCall(c), OpDecodeCall(Len(b))>> : c \in 0..(Len(b) - 1)}
+\* the same for a non-canonical BER form of the value (the style is carried for the reports)
+SplitsS(syn, b, style) == {<<[OpStartDecode(1, syn, b) EXCEPT !.a = "StartDecode"] @@ [style |-> style], OpDecodeCall(c), OpDecodeCall(Len(b))>> : c \in 0..(Len(b) - 1)}
+BerIndef(n, v) == BerVar(Env, TRef(n), v, BerStyles[3])        \* every constructed encoding in the indefinite form
 \* every composition (all chunkings) of a short encoding, and 1-octet feeding of any
 RECURSIVE Compositions(_, _)
 Compositions(from, n) == IF from = n THEN {<<>>}
@@ -94,7 +97,8 @@ SinkPlans(n, v) ==
 \* ---- C04 / C14: arbitrary octets, lifecycle ----------------------------------
 \* streams for one-shot decoders: the reference encodings incl. UPER, XER text when writable
 AllStreams(n, v) ==
-  {<<"DER", Enc("DER", TRef(n), v)>>, <<"OER", Enc("OER", TRef(n), v)>>, <<"UPER", Enc("UPER", TRef(n), v)>>}
+  {<<"DER", Enc("DER", TRef(n), v)>>, <<"OER", Enc("OER", TRef(n), v)>>, <<"UPER", Enc("UPER", TRef(n), v)>>,
+   <<"DER", BerIndef(n, v)>>}
   \cup (IF XerWritable(Env, TRef(n), v) THEN {<<"CXER", Ser(XerTokens(Env, n, TRef(n), v), "canon")>>} ELSE {})
 Byte(x) == x % 256
 Interesting(x) == (IF MutDense THEN {0, 1, 127, 128, 129, 255, Byte(x + 1), Byte(x + 255), Byte(x + 128)}
@@ -156,6 +160,7 @@ PlansFor(n, v) ==
     [] PlanSet = "reps" -> RepPlans(n, v)
     [] PlanSet = "variants" -> BerVariants(n, v) \cup PerOerVariants(n, v) \cup XerVariants(n, v)
     [] PlanSet = "split" -> UNION {Splits(st[1], st[2]) : st \in Streams(n, v)}
+                            \cup (IF BerIndef(n, v) # Enc("DER", TRef(n), v) THEN SplitsS("DER", BerIndef(n, v), "ber3") ELSE {})
     [] PlanSet = "chunks" -> UNION {(IF Len(st[2]) <= MaxCompose THEN AllChunkings(st[1], st[2]) ELSE {})
                                     \cup ByteWise(st[1], st[2]) : st \in Streams(n, v)}
     [] OTHER -> Plans
